@@ -19,6 +19,7 @@ open ASV ASV.Packing
 def drawRange (c : Ctx) : Int × Int :=
   match c.region with
   | .compound [p, q] => (p.lo, c.L + q.hi)
+  | .simple p => (p.lo, p.hi)
   | l => (l.start, l.end)
 
 /-- distance travelled along the genome from the region's first base `lo` to position `r`
@@ -228,16 +229,18 @@ def inputOK (c : Ctx) (r : RegionIn) : Bool :=
     region (and `inLast` says which), or it spans the origin inside an origin-spanning or
     whole-record circular region without overlapping itself -/
 def viewOK (c : Ctx) (v : GeneView) : Bool :=
+  (v.strand == 1 || v.strand == -1 || v.strand == 0) &&
   match c.region with
   | .compound [p, q] =>
     if v.crosses then !v.inLast && decide (p.lo ≤ v.start) && decide (v.start < c.L)
                       && decide (0 < v.end) && decide (v.end ≤ q.hi)
     else if v.inLast then decide (0 ≤ v.start) && decide (v.start < v.end) && decide (v.end ≤ q.hi)
     else decide (p.lo ≤ v.start) && decide (v.start < v.end) && decide (v.end ≤ c.L)
-  | l =>
-    if v.crosses then c.circular && l.start == 0 && l.end == c.L && decide (0 < v.end)
+  | .simple p =>
+    if v.crosses then c.circular && p.lo == 0 && p.hi == c.L && decide (0 < v.end)
                       && decide (v.end ≤ v.start) && decide (v.start < c.L)
-    else decide (l.start ≤ v.start) && decide (v.start < v.end) && decide (v.end ≤ l.end)
+    else decide (p.lo ≤ v.start) && decide (v.start < v.end) && decide (v.end ≤ p.hi)
+  | .compound _ => false
 
 end ASV.Packing.Spec
 
